@@ -132,6 +132,25 @@ def grep_forbidden():
     return hits
 
 
+class build_lock:
+    """the lock `make -C /verif all` takes (Makefile): exclusive while files of the Coq build are
+    written, shared while coqchk reads them -- checks may be started in parallel"""
+    def __init__(self, shared=False):
+        self.shared = shared
+
+    def __enter__(self):
+        import fcntl
+        os.makedirs(BUILD, exist_ok=True)
+        self.fh = open(os.path.join(BUILD, ".build.lock"), "a")
+        fcntl.flock(self.fh, fcntl.LOCK_SH if self.shared else fcntl.LOCK_EX)
+        return self
+
+    def __exit__(self, *a):
+        import fcntl
+        fcntl.flock(self.fh, fcntl.LOCK_UN)
+        self.fh.close()
+
+
 def check_property_file(prop):
     """Recompile Properties/<prop>.v, collect its theorems and the Print Assumptions output."""
     path = os.path.join(COQ, "theories", "Properties", prop + ".v")
@@ -145,9 +164,10 @@ def check_property_file(prop):
     names = re.findall(r"^\s*Theorem\s+([A-Za-z0-9_']+)", src_nc, flags=re.M)
     printed = re.findall(r"^\s*Print Assumptions\s+([A-Za-z0-9_']+)\s*\.", src_nc, flags=re.M)
     t0 = time.time()
-    p = subprocess.run(["coqc", "-Q", "theories", "SV", "-w", "-notation-overridden",
-                        os.path.join("theories", "Properties", prop + ".v")],
-                       cwd=COQ, capture_output=True, text=True, timeout=1200)
+    with build_lock():
+        p = subprocess.run(["coqc", "-Q", "theories", "SV", "-w", "-notation-overridden",
+                            os.path.join("theories", "Properties", prop + ".v")],
+                           cwd=COQ, capture_output=True, text=True, timeout=1200)
     info["coqc_s"] = round(time.time() - t0, 2)
     out = p.stdout
     info["log"] = (p.stdout + p.stderr)[-3000:]
@@ -178,8 +198,9 @@ def run_coqchk(prop):
     (thorough tier); returns the context summary printed by coqchk -o"""
     t0 = time.time()
     try:
-        p = subprocess.run(["coqchk", "-silent", "-o", "-Q", "theories", "SV", "SV.Properties." + prop],
-                           cwd=COQ, capture_output=True, text=True, timeout=3000)
+        with build_lock(shared=True):
+            p = subprocess.run(["coqchk", "-silent", "-o", "-Q", "theories", "SV", "SV.Properties." + prop],
+                               cwd=COQ, capture_output=True, text=True, timeout=3000)
     except subprocess.TimeoutExpired:
         return {"ok": False, "summary": "coqchk timed out", "wall_s": round(time.time() - t0, 1)}
     out = p.stdout + p.stderr
